@@ -51,6 +51,8 @@ def default_params():
         third=None,                 # None | "before" | "after": a raw third client claims the nameplate
         hs_fail=[0, 0],             # budget of reconnections whose WebSocket negotiation fails
         w_s2c=None,                 # [w0, w1] scheduling weight of server->client delivery per side (default w_progress)
+        wl_cb="wc",                 # what the when_wordlist_is_available() callback does: wc | close | send
+        get_in_close_cb=False,      # Deferred API: every get_*() is requested again from the callback of close()
         dilate=[False, False],      # the side also calls w.dilate(): dilate-N records share the mailbox
         hs_fail_first=[False, False],   # the first connection's WebSocket negotiation may fail (a scheduler event)
         hs_slow=[False, False],     # TCP connection and WebSocket negotiation are separate scheduler events
@@ -161,6 +163,13 @@ class Rec:
         if r is not None:
             self.close_d[i].append(r)
             r.addBoth(lambda x, i=i: self.close_results[i].append(x))
+            if first and self.P.get("get_in_close_cb") and self.P.get("mode") == "deferred":
+                # an application that asks for everything again from the callback of close() itself
+                def again(x, i=i):
+                    for g in ("welcome", "code", "key", "verifier", "versions", "msg"):
+                        _request_get(self, i, g)
+                    return x
+                r.addBoth(again)
 
 
 def _tracer(rec, i, machine):
@@ -464,7 +473,25 @@ def _run(P, rec, W, tape, on_step, setup, at_stable, adversary=None, on_idle=Non
                 elif op == "wc":
                     h.get_word_completions("pu")
                 elif op == "wl":
-                    h.when_wordlist_is_available()
+                    d_ = h.when_wordlist_is_available()
+
+                    def on_wordlist(x, h=h, i_=i_):
+                        # a front end that asks for completions the moment the wordlist is announced
+                        try:
+                            act = rec.P.get("wl_cb", "wc")
+                            if act == "close":
+                                rec.do_close(i_)
+                            elif act == "send":
+                                ws[i_].send_message(b"from-wordlist-callback")
+                            else:
+                                h.get_word_completions("pu")
+                        except Exception as ex:
+                            from wormhole.errors import WormholeError
+                            if not isinstance(ex, WormholeError):
+                                rec.api_exc.append((("xop", i_, "wc-in-wordlist-callback"), ex))
+                        return x
+                    if d_ is not None:
+                        d_.addCallback(on_wordlist)
                 elif op == "np_again":
                     h.choose_nameplate("9")
                 elif op == "words_again":
